@@ -1,6 +1,7 @@
 package main
 
 import (
+	"github.com/scrapli/scrapligo/transport"
 	"time"
 
 	"github.com/scrapli/scrapligo/driver/netconf"
@@ -23,20 +24,21 @@ type ncSession struct {
 }
 
 type ncConfig struct {
-	trace        bool // record the pipe's deliver / recv events
-	onlcr        bool // the transport delivers CR LF for every LF of the server (a pty in front of ssh does)
-	adv10, adv11 bool
-	preferred    string
-	echo         bool
-	seg          simdev.Seg
-	devDelay     time.Duration
-	readDelay    time.Duration
-	timeout      time.Duration
-	seed         int64
-	hello        string // overrides the default hello
-	extra        []util.Option
-	reply        func(s *simdev.NCServer, r simdev.NCRequest) []byte
-	replyMulti   func(s *simdev.NCServer, r simdev.NCRequest) [][]byte
+	trace         bool // record the pipe's deliver / recv events
+	inChannelAuth bool // the transport asks for the in-channel ssh login loop
+	onlcr         bool // the transport delivers CR LF for every LF of the server (a pty in front of ssh does)
+	adv10, adv11  bool
+	preferred     string
+	echo          bool
+	seg           simdev.Seg
+	devDelay      time.Duration
+	readDelay     time.Duration
+	timeout       time.Duration
+	seed          int64
+	hello         string // overrides the default hello
+	extra         []util.Option
+	reply         func(s *simdev.NCServer, r simdev.NCRequest) []byte
+	replyMulti    func(s *simdev.NCServer, r simdev.NCRequest) [][]byte
 }
 
 func newNcSession(c ncConfig) (*ncSession, error) {
@@ -70,8 +72,18 @@ func newNcSession(c ncConfig) (*ncSession, error) {
 		c.readDelay = 30 * time.Microsecond
 	}
 
+	var impl transport.Implementation = pipe
+
+	if c.inChannelAuth {
+		// a transport that logs in inside the byte stream (as the system transport does): the channel's login loop runs in front
+		// of the hello exchange on every Open and is ended by the hello's delimiter
+		ap := &simdev.AuthPipe{Pipe: pipe}
+		ap.AuthType = transport.InChannelAuthSSH
+		impl = ap
+	}
+
 	opts := []util.Option{
-		options.WithCustomTransport(pipe),
+		options.WithCustomTransport(impl),
 		options.WithReadDelay(c.readDelay),
 		options.WithTimeoutOps(c.timeout),
 	}
